@@ -531,6 +531,30 @@ def _mof_escaped(strvalue):
     return escaped_str
 
 
+def _mof_escaped_split_pos(escaped_str, split_pos):
+    """
+    Return the position of the last character of the first part, for
+    splitting a MOF-escaped string (as returned by _mof_escaped()) into two
+    parts, such that the first part ends at or before the character at
+    position `split_pos` and no MOF escape sequence is split.
+
+    The first part always consists of at least one character or escape
+    sequence, even if that exceeds `split_pos`.
+    """
+    pos = 0
+    while pos < len(escaped_str):
+        if escaped_str[pos] != '\\':
+            item_len = 1
+        elif escaped_str[pos + 1:pos + 2] == 'x':
+            item_len = 6  # \xNNNN, as generated by _mof_escaped()
+        else:
+            item_len = 2
+        if pos > 0 and pos + item_len > split_pos + 1:
+            break
+        pos += item_len
+    return pos - 1
+
+
 def mofstr(value, indent=MOF_INDENT, maxline=MAX_MOF_LINE, line_pos=0,
            end_space=0, avoid_splits=False, quote_char='"'):
     """
@@ -633,8 +657,9 @@ def mofstr(value, indent=MOF_INDENT, maxline=MAX_MOF_LINE, line_pos=0,
         # Split the string and output the next part
         split_pos = value.rfind(' ', 0, avl_len)
         if split_pos < 0:
-            # We have to split within a word
-            split_pos = avl_len - 1
+            # We have to split within a word, but not within a MOF escape
+            # sequence
+            split_pos = _mof_escaped_split_pos(value, avl_len - 1)
         part_value = value[0:split_pos + 1]
         value = value[split_pos + 1:]
         mof.append(quote_char)
